@@ -58,12 +58,12 @@ class C08(Prop):
     id = "C08"
     rule = ("(seg) each segment kind: Beziers with 0/1/2 interior extrema per axis, axis-degenerate and near-linear cubics, arcs of any "
             "rotation (incl. multiples of 90), start anywhere on the ellipse, extents from 0.05 degrees to 359.9 degrees, zero-extent arcs; "
-            "(shape) paths/shapes with transforms, transformed in {T,F}, with_stroke in {T,F}, stroke painted / none / unset, subpath "
+            "(shape) paths/shapes with transforms, transformed in {T,F}, with_stroke in {T,F}, stroke painted / none / unset, ordinary or vector-effect=non-scaling-stroke (effective width follows the viewport transform only), subpath "
             "boxes; (group) groups of groups. Oracle: dense sampling (161 points) of point(t) refined by ternary search around each "
             "extreme: containment and tightness of all four sides, ordering, stroke growth, union. non-trivial = curved segment or "
             "container; distinct by canonical JSON")
     trusted_base = [
-        "cubic Bezier and arc boxes are NOT carried by a theorem (real-root / trigonometric extremum arguments): decided by "
+        "arc boxes (and cubics with 0 < |leading coefficient| < 1e-8) are NOT carried by a theorem (trigonometric extremum argument): decided by "
         "correspondence with the transcribed algorithms (Model/BBox.lean) and the sampling oracle",
         "sampling oracle resolution: 161 samples + ternary refinement; tolerance 1e-7 of the object's size",
     ]
@@ -96,7 +96,10 @@ class C08(Prop):
                     cur = d["p"][-1]
             yield {"k": "shape", "shape": sh, "segs": segs, "M": gen.matrix_invertible(rng) if rng.random() < 0.7 else None,
                    "stroke": rng.choice(["red", "none", None, "#00f8"]), "sw": rng.choice([None, 0.0, 1.0, 3.5, 12.0]),
-                   "transformed": rng.random() < 0.6, "with_stroke": rng.random() < 0.6, "subpath": rng.random() < 0.4}
+                   "transformed": rng.random() < 0.6, "with_stroke": rng.random() < 0.6, "subpath": rng.random() < 0.4,
+                   # vector-effect=non-scaling-stroke: the effective width ignores the shape's own transform and follows the
+                   # viewport transform only (text of the transform, |det| worked out here)
+                   "nss": rng.choice([None, None, None, ["", 1.0], ["scale(2)", 4.0], ["scale(0.5,3)", 1.5], ["translate(5,5)", 1.0]])}
         for _ in range(n // 6):
             kids = []
             for _ in range(rng.randint(1, 4)):
@@ -133,6 +136,10 @@ class C08(Prop):
         else:
             sh.stroke = None
         sh.stroke_width = c.get("sw")
+        if c.get("nss") is not None:
+            sh.values["vector-effect"] = "non-scaling-stroke"
+            if c["nss"][0]:
+                sh.values["viewport_transform"] = c["nss"][0]
         return sh
 
     def impl(self, case):
@@ -274,7 +281,8 @@ class C08(Prop):
                     continue
                 delta = 0.0
                 if ws and obs["painted"]:
-                    delta = obs["sw"] / 2.0 * (obs["sqrtdet"] if tr else 1.0)
+                    scale_w = obs["sqrtdet"] if case.get("nss") is None else math.sqrt(case["nss"][1])
+                    delta = obs["sw"] / 2.0 * (scale_w if tr else 1.0)
                 want = [ext[0] - delta, ext[1] - delta, ext[2] + delta, ext[3] + delta]
                 n0 = len(fs)
                 self._judge(fs, case, bb, want, tol + 1e-9 * abs(delta),
